@@ -215,7 +215,9 @@ MultiplePredecessors findAllVertexPredecessors(const Graph<EdgeLabel> &graph,
         for (const VertexIndex &neighbour :
              graph.getOutNeighbours(currentVertex)) {
             if (!processedVertices[neighbour]) {
-                verticesToProcess.push(neighbour);
+                // enqueue a vertex only when it is first discovered
+                if (shortestPaths[neighbour] == BASEGRAPH_VERTEX_MAX)
+                    verticesToProcess.push(neighbour);
                 auto newPathLength = shortestPaths[currentVertex] + 1;
 
                 // if paths are same length and vertex not added
